@@ -25,7 +25,8 @@ IssCls   == {"eq", "wrong", "case", "slash", "prefix", "suffix", "empty", "absen
 DestCls  == StrCls \cup {"cur"}
 AudCls   == {"eq", "wrong", "case", "slash", "prefix", "suffix", "empty", "alt"}   \* alt: the SP's other identifier (metadata URL when an entity ID is set, and vice versa)
 StatCls  == {"Success", "Requester", "Responder", "empty", "absent", "nocode"}
-IrtCls   == {"id1", "id2", "other", "pfx", "sfx", "empty", "absent"}
+\* case: an outstanding ID in other letter case (IDs are opaque, case-sensitive strings)
+IrtCls   == {"id1", "id2", "other", "pfx", "sfx", "case", "empty", "absent"}
 OutIDs   == {"id1", "id2", "", "pfx", "sfx"}
 
 \* the string an InResponseTo class denotes, as far as membership is concerned
